@@ -497,6 +497,18 @@ def guard_rules(toks, i, out, hit):
     """unit `guard`: R5/R6 as in unit ctrl but native `for` over ranges (no R7), plus
     R8b: a call through the captured drop function pointer `drop(E)` -> `drop.call(E)`."""
     t = toks[i]
+    if t.kind == 'id' and t.text == 'drop' and i + 6 < len(toks) and toks[i + 1].text == '(' and toks[i + 2].kind == 'id' \
+            and [x.text for x in toks[i + 3:i + 6]] == ['.', 'bucket_ptr', '('] and out and out[-1].text in ('{', ';', '}'):
+        # R8b': `drop(X.bucket_ptr(E, S))` -> `X.drop_elem_at(drop, E, S)`
+        c_in = extract._find_close(toks, i + 5)
+        c_out = extract._find_close(toks, i + 1)
+        if c_out != c_in + 1:
+            raise ExtractError('R8b: unexpected shape of the drop call')
+        args = extract.rewrite(toks[i + 6:c_in], set(), _HITS, guard_rules)
+        T = extract.T
+        out.extend([T(toks[i + 2].text, t.gap), T('.', ''), T('drop_elem_at', ''), T('(', ''), T('drop', ''), T(',', '')] + args + [T(')', '')])
+        hit('R8b_type_erased_drop_recorded')
+        return c_out + 1
     if t.kind == 'id' and t.text == 'drop' and i + 1 < len(toks) and toks[i + 1].text == '(' and out and out[-1].text in ('{', ';', '}'):
         out.extend([extract.T('drop', t.gap), extract.T('.', ''), extract.T('call', '')])
         hit('R8b_fn_pointer_call_to_shim_call')
